@@ -5,6 +5,7 @@ import (
 	"bytes"
 	"fmt"
 	"io"
+	"os"
 	"math"
 	"sort"
 	"runtime"
@@ -166,7 +167,7 @@ func runEnc(args []string) (out string) {
 	if rv.IsValid() {
 		v = rv.Interface()
 	}
-	before := fmt.Sprintf("%#v", v)
+	before := deepString(v)
 	w := &logWriter{failAt: failAt}
 	var dst io.Writer = w
 	var bw *bufio.Writer
@@ -205,8 +206,19 @@ func runEnc(args []string) (out string) {
 		all = append(all, b...)
 	}
 	mutated := "0"
-	if fmt.Sprintf("%#v", v) != before {
+	if after := deepString(v); after != before {
 		mutated = "1"
+		if os.Getenv("VERIF_DEBUG_MUT") != "" {
+			i := 0
+			for i < len(after) && i < len(before) && after[i] == before[i] {
+				i++
+			}
+			lo := i - 200
+			if lo < 0 {
+				lo = 0
+			}
+			fmt.Fprintf(os.Stderr, "BEFORE ...%s\nAFTER  ...%s\n", before[lo:imin(len(before), i+200)], after[lo:imin(len(after), i+200)])
+		}
 	}
 	tail := fmt.Sprintf(" #writes=%d #after=%d #mutated=%s #getref=%d/%d", len(w.writes), w.after, mutated, nhits, ncalls)
 	switch {
@@ -479,4 +491,11 @@ func handleMore(f []string) (string, bool) {
 		return isPrintTable(), true
 	}
 	return "", false
+}
+
+func imin(a, b int) int {
+	if a < b {
+		return a
+	}
+	return b
 }
